@@ -30,3 +30,30 @@ Definition reshape_modes (ns tg : list nat) : option (list nat) :=
   | c :: ins => reshape_loop (length ns + length tg + 1) c ins tg []
   end.
 Definition prodl (l : list nat) : nat := fold_right Nat.mul 1 l.
+
+(* ---- the same loop for TT matrices (torchtt/_extras.py, is_ttm branch): the cursor carries a (row, column) pair; a target pair is split off
+   when BOTH sizes divide and at least one quotient exceeds 1, taken when both quotients are 1, otherwise the next core is merged in ---- *)
+Fixpoint reshape_loop4 (fuel cm cn : nat) (ins tg acc : list (nat * nat)) : option (list (nat * nat)) :=
+  match fuel with
+  | O => None
+  | S f =>
+      match tg with
+      | [] => Some (rev acc)
+      | (tm, tn) :: tgt =>
+          if Nat.eqb (cm mod tm) 0 && Nat.eqb (cn mod tn) 0 then
+            if Nat.ltb 1 (cm / tm) || Nat.ltb 1 (cn / tn) then reshape_loop4 f (cm / tm) (cn / tn) ins tgt ((tm, tn) :: acc)
+            else match ins with
+                 | [] => Some (rev ((cm, cn) :: acc) ++ repeat (1, 1) (length tgt))
+                 | (m, n) :: ins' => reshape_loop4 f m n ins' tgt ((cm, cn) :: acc)
+                 end
+          else match ins with
+               | [] => Some (rev acc ++ repeat (1, 1) (length tgt))
+               | (m, n) :: ins' => reshape_loop4 f (cm * m) (cn * n) ins' tg acc
+               end
+      end
+  end.
+Definition reshape_modes4 (ns tg : list (nat * nat)) : option (list (nat * nat)) :=
+  match ns with
+  | [] => None
+  | (m, n) :: ins => reshape_loop4 (length ns + length tg + 1) m n ins tg []
+  end.
